@@ -118,6 +118,8 @@ package keyed
 //@   opt frame = skip
 //@   captured r != nil && r.k != nil && removeNow != nil
 //@   bind removeNow = (*runningRoutine).remove$1
+//@   assert unlock 1: onlypending[C06]: (csold(r.deferRemove) == nil || csold(r.k.routines[r.key]) != r) ==> (forall key: any {r.k.routines[key]} :: in(r.k.routines, key) == csold(in(r.k.routines, key)) && r.k.routines[key] == csold(r.k.routines[key]))
+//@   assert unlock 1: onlyown[C06]: forall key: any {r.k.routines[key]} :: key != r.key ==> in(r.k.routines, key) == csold(in(r.k.routines, key)) && r.k.routines[key] == csold(r.k.routines[key])
 //
 //@ func (*Keyed).SetContext
 //@   props C07 C13
